@@ -22,7 +22,9 @@ def _make_accessor(repo, interp, cls, units):
     """A temperature accessor built by /repo's own constructor chain on a structure whose
     units item reads `units`."""
     from ..absint import ClassRef
-    st = Obj(None, {"accessors": {"TempUnits": Obj(None, {"value": units, "watch": Native(lambda a, k: None)})}, "status_block": b""})
+    u = Obj(None, {"value": units, "watch": Native(lambda a, k: None)}, name="units-item")
+    u.attrs["_get_value"] = Native(lambda a, k, u=u: u.attrs["value"], "_get_value")   # the unit, however it is asked for
+    st = Obj(None, {"accessors": {"TempUnits": u}, "status_block": b""})
     hook = interp.call_hook
     interp.call_hook = None
     try:
@@ -97,6 +99,10 @@ def run_writer(repo, method, units):
 
     interp.call_hook = hook
     obj = _make_accessor(repo, interp, cls, units)
+    st = obj.attrs.get("struct")
+    if isinstance(st, Obj):   # a writer that hands the word to the structure itself instead of to the base class's writer
+        for nm in ("set_value", "async_set_value"):
+            st.attrs.setdefault(nm, Native(lambda a, k: got.append(a[2]) if len(a) > 2 else None, nm))
     interp.call(repo.own_method(ACC, method), obj, [Affine.var()])
     if len(got) != 1:
         raise Undecided(f"{method} delegated {len(got)} times")
@@ -368,6 +374,9 @@ def check(ctx):
         interp.call_hook = hook
         try:
             obj = _make_accessor(repo, interp, acls, "C")
+            if isinstance(obj.attrs.get("struct"), Obj):
+                for nm_ in ("set_value", "async_set_value"):
+                    obj.attrs["struct"].attrs.setdefault(nm_, Native(lambda a, k, got=got: got.append(a[2]) if len(a) > 2 else None, nm_))
             units_item = obj.attrs["struct"].attrs["accessors"]["TempUnits"] if "struct" in obj.attrs else None
             res = []
             for u in ("C", "F"):
